@@ -11,7 +11,7 @@ for f in ["patch.diff", "demo_test.go", "demo_path.txt", "README.md"]:
         shutil.copyfile(os.path.join(src, f), os.path.join(dst, f))
 readme = open(os.path.join(src, "README.md")).read() if os.path.exists(os.path.join(src, "README.md")) else ""
 confirm = ""
-for log in ["/tmp/confirm1.log", "/tmp/confirm2.log", "/tmp/confirm3.log", "/tmp/confirm4.log", "/tmp/confirm5.log", "/tmp/confirm6.log", "/tmp/confirm7.log", "/tmp/confirm8.log", "/tmp/c8.log", "/tmp/c9.log", "/tmp/c10.log"]:
+for log in ["/tmp/confirm1.log", "/tmp/confirm2.log", "/tmp/confirm3.log", "/tmp/confirm4.log", "/tmp/confirm5.log", "/tmp/confirm6.log", "/tmp/confirm7.log", "/tmp/confirm8.log", "/tmp/c8.log", "/tmp/c9.log", "/tmp/c10.log", "/tmp/c11.log", "/tmp/c12.log"]:
     if os.path.exists(log):
         txt = open(log).read()
         m = re.search(r"\[%s/%s\].*?(?=\n\[|\Z)" % (P, N), txt, re.S)
